@@ -268,7 +268,10 @@ def run_impl(case):
                     continue
                 num = dead[op[1] % len(dead)]
                 del refs[num]
-                gc.collect()
+                # children are not part of reference cycles: dropping the last strong reference frees
+                # them at once; a full collection (slow on the driver's large heap) is the fallback
+                if any(c.num == num for c in pool._mortuary):
+                    gc.collect()
                 cops.append(["collect", num])
             else:
                 order = [c.num for c in pool._hatchery]
